@@ -389,8 +389,11 @@ def run(ctx):
     pool = [v for v in vals[len(L.CORPUS_STRINGS) + len(L.CORPUS_VALUES):]]
     sample += r.sample(pool, min(len(pool), ctx.budget(1500, 20000)))
     check_metadata(ctx, sample)
-    names = L.CORPUS_STRINGS + [L.rand_string(r, 12) for _ in range(ctx.budget(60, 600))]
-    triples = [(["a", "b"], "tree", "file.root"), ("col", "t", "f"), ([], "it's", "a\\nb"), (["x' + 'y", '"'], "t\n", "C:\\new\\table.root")]
+    # file names are text, not paths: spellings a path normaliser would rewrite must arrive untouched
+    PATHS = ["a//b.root", "./out.root", "dir/../f.parquet", "out/", "/abs//x", ".", "a/./b", "..", "C:/x/../y", "x/", "//srv/f", "a/b/../../c",
+             "a\\..\\b", "", " ", "./"]
+    names = L.CORPUS_STRINGS + PATHS + [L.rand_string(r, 12) for _ in range(ctx.budget(60, 600))]
+    triples = [(["a", "b"], "tree", "file.root"), ("col", "t", "f"), ("c", "t", "./a//b/../f.root"), ([], "it's", "a\\nb"), (["x' + 'y", '"'], "t\n", "C:\\new\\table.root")]
     for _ in range(ctx.budget(250, 4000)):
         cols = r.choice([[r.choice(names) for _ in range(r.randrange(0, 4))], r.choice(names)])
         triples.append((cols, r.choice(names), r.choice(names)))
